@@ -564,11 +564,16 @@ def parse_file(data):
             "dc": [(24, 32), (44, 64)] + [r for e in entries for r in e["dc"]]}
 
 
-def build_entry(t, f, off, size, ctime, mtime, atime, comment, junk=None):
+def build_entry(t, f, off, size, ctime, mtime, atime, comment, junk=None, comment_raw=None):
     w = W(junk)
     w.u32(t); w.u32(f); w.i32(off); w.i32(size); w.i32(ctime); w.i32(mtime); w.i32(atime)
     w.pad_dc(4)
-    w.S(256, comment)
+    if comment_raw is not None:      # other software may fill all 256 bytes without a terminator
+        if len(comment_raw) != 256:
+            raise LayoutError("raw comment must be 256 bytes")
+        w.raw(comment_raw)
+    else:
+        w.S(256, comment)
     return bytes(w.b)
 
 
@@ -595,7 +600,7 @@ def build_file(n, live, *, version=1, hdr_times=(1000000000, 1000000001, 1000000
             out += build_entry(0, 0, off, 0, *unused_times, unused_comment, junk)
         else:
             out += build_entry(s["type"], s["format"], off, len(s["payload"]), s["ctime"], s["mtime"],
-                               s["atime"], s["comment"], junk)
+                               s["atime"], s["comment"], junk, s.get("comment_raw"))
             body += s["payload"]
             off += len(s["payload"])
     for _ in range(n - len(slots)):
